@@ -7,7 +7,7 @@ VMM_ASSUME = ['simulated machine: physical memory = host pages (frame = host add
 
 PROP = {
     'pkg': K + '/mm/vmm',
-    'tests': [{'name': 'TestVerifC04', 'checks_quick': 8000, 'checks_thorough': 150000}],
+    'tests': [{'name': 'TestVerifC04', 'checks_quick': 60000, 'checks_thorough': 1500000}],
     'rule': 'rapid generates a history (<=60 ops quick, <=300 thorough) over 1-3 address spaces of Map/Unmap/'
             'PageDirectoryTable.Map/Unmap (active and inactive)/MapRegion/IdentityMapRegion/MapTemporary/Translate/Activate '
             'with pages from per-level index pools (shared and distinct upper tables, both canonical halves, the '
